@@ -424,6 +424,41 @@ func (sc *c11Scenario) laws(s *simrt.Sim, add func(clause, fp, detail string)) {
 			add("value", "Eval-with-closed-handlers", fmt.Sprintf("Eval() of a MonadIO whose handlers are closed returned %v (want %d), effect ran %d times (want 1) on thread T%d (caller T%d)", eop.Val, 7700+sc.LawSeed, ran, effTID, callerTID))
 		}
 	}
+	// the setters are independent of their call order and of each other's earlier values: after
+	// ObserveOn(hA).SubscribeOn(hA) followed by ObserveOn(hB) (or ObserveOn(nil)) the effect runs on hB's goroutine
+	// (resp. on the subscriber's) and OnNext on hA's
+	for _, second := range []string{"other-handler", "nil"} {
+		hA, hB := fpgo.Handler.New(), fpgo.Handler.New()
+		tidA, tidB := sc.handlerTID(s, hA), sc.handlerTID(s, hB)
+		effTID, nextTID, callerTID := -1, -1, -2
+		mm := fpgo.MonadIONewGenerics(func() int { effTID = s.Self().ID; return 99 })
+		mm.ObserveOn(hA).SubscribeOn(hA)
+		wantEff := tidB
+		if second == "nil" {
+			mm.ObserveOn(nil)
+		} else {
+			mm.ObserveOn(hB)
+		}
+		got := false
+		st := s.Go("resubscriber-"+second, func() {
+			callerTID = s.Self().ID
+			sc.h.Do("resubscriber-"+second, "Subscribe", nil, func() (interface{}, error) {
+				mm.Subscribe(fpgo.Subscription[int]{OnNext: func(v int) { nextTID = s.Self().ID; got = v == 99 }})
+				return nil, nil
+			})
+		})
+		ok := s.WaitUntilTimeout(func() bool { return st.Done() && got }, 5*time.Minute)
+		if second == "nil" {
+			wantEff = callerTID
+		}
+		if !ok {
+			add("handler-routing", "observe-handler-replaced-after-both-were-the-same:no-delivery", fmt.Sprintf("ObserveOn(hA).SubscribeOn(hA), then ObserveOn(%s), then Subscribe: OnNext was not called with the value", second))
+		} else if effTID != wantEff || nextTID != tidA {
+			add("handler-routing", "observe-handler-replaced-after-both-were-the-same", fmt.Sprintf("ObserveOn(hA).SubscribeOn(hA), then ObserveOn(%s), then Subscribe: effect ran on T%d (want T%d), OnNext on T%d (want hA = T%d)", second, effTID, wantEff, nextTID, tidA))
+		}
+		hA.Close()
+		hB.Close()
+	}
 	tp := simrt.NewGenTape(uint64(sc.LawSeed) + 77)
 	id := 1000
 	fBody := genC11Node(tp, 1, &id)
